@@ -637,19 +637,19 @@ func (n *Node) fastForward() error {
 		return fmt.Errorf("getBestFastForwardResponse returned nil")
 	}
 
-	//update app from snapshot
-	err = n.proxy.Restore(resp.Snapshot)
-	if err != nil {
-		n.logger.WithError(err).Error("Restoring App from Snapshot")
-		return err
-	}
-
 	//prepare core. ie: fresh hashgraph
 	n.coreLock.Lock()
 	err = n.core.fastForward(&resp.Block, &resp.Frame)
 	n.coreLock.Unlock()
 	if err != nil {
 		n.logger.WithError(err).Error("Fast Forwarding Hashgraph")
+		return err
+	}
+
+	//update app from snapshot
+	err = n.proxy.Restore(resp.Snapshot)
+	if err != nil {
+		n.logger.WithError(err).Error("Restoring App from Snapshot")
 		return err
 	}
 
